@@ -119,7 +119,10 @@ func genClaimsCase(seed int64, si int, prop string) *clCase {
 		ph := sbh + c.W*c.B
 		for nd := 0; nd < clNodes; nd++ {
 			ph = sbh + c.W*c.B
-			if rr.Intn(10) < 4 {
+			// the node that edits its chain list in the middle of the second session (see below) always files an ordinary
+			// claim for that session
+			force := si%3 == 1 && s == 1 && nd == 2*((si/3)%3) // a node staked for both chains (even genesis index)
+			if rr.Intn(10) < 4 && !force {
 				continue
 			}
 			appKey := chain.KeyApp0 + rr.Intn(2)
@@ -141,6 +144,9 @@ func genClaimsCase(seed int64, si int, prop string) *clCase {
 				classes = []string{"valid", "at-proof-height", "at-proof-height", "late", "predicting", "predicting", "last-before-proof-height", "during-session"}
 			}
 			cl.Class = classes[rr.Intn(len(classes))]
+			if force {
+				cl.Class = "valid"
+			}
 			switch cl.Class {
 			case "during-session":
 				cl.H = sbh + int64(rr.Intn(int(c.B)))
@@ -295,6 +301,14 @@ func genClaimsCase(seed int64, si int, prop string) *clCase {
 			b.Tx(chain.MsgNodeUnstake(chain.Addr(victim), chain.Addr(victim)), chain.Key(victim))
 			static++
 		}
+		if si%3 == 1 && b.H == first+c.B+c.B/2 {
+			// in the middle of the second session a node edits its stake to a chain list of the same length that names one
+			// chain twice and no longer names 0001 (duplicates pass the message's validation): from then on it does not
+			// serve 0001, whatever a session cached earlier says
+			en := chain.KeyNode0 + 2*((si/3)%3)
+			b.Tx(chain.MsgNodeStake(chain.Key(en), []string{"0021", "0021"}, 15_100_000_000+1_000_000_000*int64((en-chain.KeyNode0)%7), fmt.Sprintf("https://n%d.example:443", en), chain.Addr(en), nil), chain.Key(en))
+			static++
+		}
 		if c.LowerAt > 0 && b.H == c.LowerAt {
 			b.Tx(chain.MsgChangeParam(chain.Addr(chain.KeyOwner), "pocketcore/ClaimSubmissionWindow", []byte(`"2"`)), chain.Key(chain.KeyOwner))
 			static++
@@ -438,6 +452,11 @@ func checkClaims(r *ev.Run, prop string) {
 		}
 		byH := map[int64]*chain.Snapshot{}
 		for _, s := range res.Blocks() {
+			for _, t := range s.Txs {
+				if t.Type == "stake_validator" {
+					r.Count(fmt.Sprintf("node_edit_stake_txs_code_%d", t.Code), 1)
+				}
+			}
 			byH[s.Height] = s
 		}
 		// index planned transactions
